@@ -40,6 +40,7 @@ Unsupported(f, d) ==
   CASE f = "except-all"    -> d \in {"sqlite", "mssql"}          \* SQLite compound operators: UNION [ALL], INTERSECT, EXCEPT; T-SQL has no ALL for EXCEPT/INTERSECT
     [] f = "intersect-all" -> d \in {"sqlite", "mssql"}
     [] f = "setop-bare"    -> d \in {"bigquery"}                 \* BigQuery requires ALL | DISTINCT
+    [] f \in {"union-distinct", "except-distinct", "intersect-distinct"} -> d \in {"sqlite", "mssql"}   \* no DISTINCT keyword after a compound operator
     [] f = "distinct-on"   -> d \in {"sqlite", "mysql", "mssql", "bigquery", "snowflake", "ansi"}
     [] f = "limit"         -> d \in {"mssql"}                    \* T-SQL has TOP / OFFSET-FETCH, no LIMIT
     [] f = "limit-comma"   -> d \notin {"mysql", "sqlite", "clickhouse", "generic"}
